@@ -170,13 +170,13 @@ func recvFieldOf(fn *ssa.Function, v ssa.Value) (string, bool) {
 	}
 	root := rootOf(v)
 	recv := fn.Params[0]
-	if root == ssa.Value(recv) {
+	if sameParam(root, recv) {
 		return strings.Join(names, "."), true
 	}
 	// value receiver spilled to an Alloc initialised from the parameter
 	if al, ok := root.(*ssa.Alloc); ok {
 		for _, r := range refs(al) {
-			if st, ok := r.(*ssa.Store); ok && st.Addr == ssa.Value(al) && st.Val == ssa.Value(recv) {
+			if st, ok := r.(*ssa.Store); ok && st.Addr == ssa.Value(al) && sameParam(st.Val, recv) {
 				return strings.Join(names, "."), true
 			}
 		}
